@@ -85,6 +85,14 @@ def predicate_cache(case, exp, cache, ser):
         if ser is not None and ser[0] == 'ok' and ser[1].get(ks) != rn:
             return ('C08/reported/differs',
                     'reported %r != used %r at %s' % (ser[1].get(ks), rn, ks))
+    if cache.get('reconcile', 'ok') != 'ok':
+        if None not in exp['consulted'] and 'None' not in table_keys:
+            return (SIG_ROOT, 'reconcile_taxonomy_and_markers refuses (%s) a '
+                    'cache without a group for a single-child root'
+                    % cache['reconcile'])
+        return ('C08/cache/reconcile-fails',
+                'reconcile_taxonomy_and_markers refuses the cache the same '
+                'taxonomy produced: %s' % cache['reconcile'])
     if ser is not None:
         root_consulted = None in exp['consulted']
         if ser[0] != 'ok':
@@ -224,6 +232,10 @@ def check_unit(ctx, case, label, workdir, metamorphic=True):
                             or [mu.key_str(can.unkey(k)) for k, _ in ms['ok']] \
                             != list(ser[1].keys()):
                         same, why = False, 'serialize'
+                    mr = mc['reconcile']
+                    mr = 'ok' if 'ok' in mr else mr['err']
+                    if same and mr != cache.get('reconcile'):
+                        same, why = False, 'reconcile'
                     for k, a in mc['assemble']:
                         # the identity check of assemble_query_data holds
                         if 'err' in a:
@@ -552,6 +564,16 @@ def one_edit_variants(rng, case):
     c = cp()
     c['Q'] = ['zz%d' % i for i in range(3)]
     out.append(('disjoint_query', c))
+    # a gene name repeated in the query / reference list (name -> index:
+    # the last position wins)
+    c = cp()
+    g = rng.choice(c['Q'])
+    c['Q'].insert(rng.randrange(len(c['Q']) + 1), g)
+    out.append(('dup_in_Q', c))
+    c = cp()
+    g = rng.choice(c['R'])
+    c['R'].insert(rng.randrange(len(c['R']) + 1), g)
+    out.append(('dup_in_R', c))
     # min_markers at the boundary of one parent's own overlap
     qs = set(case['Q'])
     sizes = [len(set(v) & qs) for k, v in ent if k is not None]
